@@ -69,6 +69,15 @@ const NORM_SRC = `
     return out + v.slice(last);
   }
   function __settle(d) {
+    // transitions only start at a style flush: force one, then cancel what started (twice: cancelling can itself
+    // change inherited values on descendants)
+    for (let round = 0; round < 2; round++) {
+      void d.defaultView.getComputedStyle(d.body).color;
+      for (const el of d.body.querySelectorAll('*')) void d.defaultView.getComputedStyle(el).opacity;
+      __settle1(d);
+    }
+  }
+  function __settle1(d) {
     for (const a of d.getAnimations()) { try { if (a.constructor.name === 'CSSTransition') a.cancel(); else { a.pause(); a.currentTime = 500; } } catch (_) {} }
   }
 `;
